@@ -158,8 +158,12 @@ def check_case(case):
               ratio=case["ratio"], power=case["power"])
     data = _aggr(case["mean"], case["var"], 1000)
     sign = -1 if case["alt"] == "less" else 1
-    # --- solve for the effect size, for a sequence of n_obs
-    ns = case["n_obs"]
+    # --- solve for the effect size, for a sequence of n_obs (designs that leave a group fewer than two observations are
+    #     not designs: with extreme ratios only the larger totals qualify)
+    rr = case["ratio"]
+    ns = [n for n in case["n_obs"] if min(n / (1 + rr), n * rr / (1 + rr)) >= 2]
+    if not ns:
+        ns = [int(4 * max(rr, 1 / rr)) * 10]
     try:
         res = tt.Mean("x", n_obs=tuple(ns), **kw).solve_power(data, "effect_size")
     except Exception as e:
@@ -206,7 +210,10 @@ def check_case(case):
             continue    # designs needing only a handful of observations are outside the property
         pw = lambda k: tt.Mean("x", effect_size=r.effect_size, n_obs=int(k), **kw).solve_power(data, "power")[0].power
         p_n, p_prev = pw(n), pw(n - 1)
-        if not (p_n >= case["power"] - 1e-7 and p_prev <= case["power"] + 1e-7):
+        # one more observation changes the power by p_n - p_prev; the returned n is minimal when the target lies between the
+        # two (slack: 1% of that step for the Z test whose cdf is accurate to an ulp; the t / nct functions are noisier)
+        slack = (0.01 * abs(p_n - p_prev) + 1e-13) if not case["use_t"] else 1e-7
+        if not (p_n >= case["power"] - slack and p_prev <= case["power"] + slack):
             fails.append(f"n_obs={n} is not the smallest sample size reaching power {case['power']}: power(n)={p_n}, power(n-1)={p_prev}")
     return fails
 
@@ -214,12 +221,43 @@ def check_case(case):
 def rand_case(rng):
     return {"alt": rng.choice(meanx.ALTS), "equal_var": rng.random() < 0.5, "use_t": rng.random() < 0.5,
             "alpha": rng.choice([0.01, 0.05, 0.1]), "power": rng.choice([0.5, 0.8, 0.9, 0.95]),
-            "ratio": rng.choice([1, 1, 2, 0.5, 3, 0.25, 1.5, 5, 10, 0.1]), "mean": rng.choice([1.0, 10.0, -5.0]),
+            "ratio": rng.choice([1, 1, 2, 0.5, 3, 0.25, 1.5, 5, 10, 0.1, 99, 150, 0.01, 0.005]), "mean": rng.choice([1.0, 10.0, -5.0]),
             "var": rng.choice([0.5, 4.0, 100.0]),
-            "effects": rng.sample([0.02, 0.05, 0.1, 0.3, 1.0], 2), "n_obs": rng.sample([60, 200, 1000, 20000], 2)}
+            # tiny effects need sample sizes of 1e7 .. 1e9, extreme ratios leave one group a handful of observations
+            "effects": rng.sample([0.0005, 0.002, 0.02, 0.05, 0.1, 0.3, 1.0], 2), "n_obs": rng.sample([60, 200, 1000, 20000], 2)}
+
+
+def sequence_kinds():
+    """every collections.abc.Sequence the constructor accepts gives one row per element: tuple, list, range, deque"""
+    import collections
+    import tea_tasting as tt
+    data = _aggr(10.0, 4.0, 1000)
+    fails = []
+    ref = [tuple(r) for r in tt.Mean("x", rel_effect_size=0.1, n_obs=(100, 200, 300)).solve_power(data, "power")]
+    for label, ns in (("list", [100, 200, 300]), ("range", range(100, 301, 100))):
+        try:
+            got = [tuple(r) for r in tt.Mean("x", rel_effect_size=0.1, n_obs=ns).solve_power(data, "power")]
+        except Exception as e:  # noqa: BLE001
+            fails.append(f"n_obs given as a {label} raised {type(e).__name__}: {e}")
+            continue
+        if got != ref:
+            fails.append(f"n_obs given as a {label}: rows {got} != rows for the tuple {ref}")
+    ref = [tuple(r) for r in tt.Mean("x", effect_size=(0.2, 0.5), n_obs=500).solve_power(data, "power")]
+    for label, es in (("list", [0.2, 0.5]), ("deque", collections.deque([0.2, 0.5]))):
+        try:
+            got = [tuple(r) for r in tt.Mean("x", effect_size=es, n_obs=500).solve_power(data, "power")]
+        except Exception as e:  # noqa: BLE001
+            fails.append(f"effect_size given as a {label} raised {type(e).__name__}: {e}")
+            continue
+        if got != ref:
+            fails.append(f"effect_size given as a {label}: rows differ from the tuple")
+    return fails
 
 
 def oracle(ctx, deep=False):
+    ctx.evaluations += 1
+    for f in sequence_kinds():
+        ctx.violations.append({"what": "sequence-valued attributes: " + f.split(":")[0][:60], "detail": f, "input": {"sequence_kinds": True}})
     reuse_oracle(ctx)
     for i in range(ctx.n(60, 1500) * (3 if deep else 1)):
         case = rand_case(ctx.rng)
@@ -245,6 +283,9 @@ def reuse_oracle(ctx):
 
 
 def replay(ctx, rp):
+    if rp["input"].get("sequence_kinds"):
+        fails = sequence_kinds()
+        return {"fails": bool(fails), "failures": fails}
     if rp["input"].get("reuse_history"):
         fails = meanx.reuse_history(rp["input"]["seed"], rp["input"]["parameter"])
         return {"fails": bool(fails), "failures": fails}
